@@ -202,3 +202,91 @@ def _(c):
         c.ensure(f"{cls}.value", m.value == sph[idx] * factor)
         c.ensure(f"{cls}.date", m.date.t == t)
         c.ensure(f"{cls}.frame", bool(asked == [(station, "spherical")] and m.frame is station and tuple(m.path) == tuple(path)))
+
+
+# ---------------------------------------------------------------------------------------------
+# end to end, on the real create_station / frame conversion / measures
+# ---------------------------------------------------------------------------------------------
+
+_STA = {}
+
+
+def _grid_e2e(tier, rng):
+    """latitude {-89, -45, 0, 30, 43.6, 89} deg x longitude {-170, 0, 1.44, 120} deg x altitude {-400, 0, 150, 9000} m x 6 (quick: 2) seeded targets given in ITRF (LEO to GEO,
+    below and above the horizon) x 2 dates"""
+    k = 0
+    for lat in (-89.0, -45.0, 0.0, 30.0, 43.6, 89.0):
+        for lon in (-170.0, 0.0, 1.44, 120.0):
+            for alt in (-400.0, 0.0, 150.0, 9000.0):
+                for t in range(2 if tier == "quick" else 6):
+                    k += 1
+                    yield {"lat": lat, "lon": lon, "alt": alt, "target": (k * 7 + t) % 23, "date": k % 2}
+
+
+@contract("C11", "native", funcs=[f"{ST}:create_station", f"{ST}:TopocentricFrame._geodetic_to_cartesian", f"{OR}:TopocentricOrientation._to_parent", "beyond.frames.center:Center.add_link",
+                                  f"{ME}:Range.from_orbit", f"{ME}:Azimut.from_orbit", f"{ME}:Elevation.from_orbit", f"{ME}:Doppler.from_orbit"], grid=_grid_e2e, level="bounded")
+def _(c):
+    """bounded: for a station made by create_station, the range, elevation and azimuth (-theta) of a target equal an independent WGS-84 east-north-up computation (1e-6 m,
+    1e-10 rad x range scale), and the range rate its projection of the Earth-fixed relative velocity; the station is on the ellipsoid normal at the given height, at rest in
+    ITRF and moving with omega x r in PEF->TOD; the simulated measures are those quantities, the range counted once per leg"""
+    from beyond.frames.stations import create_station
+    from beyond.orbits import StateVector
+    from beyond.dates import Date
+    from beyond.utils.measures import Range, Azimut, Elevation, Doppler
+    lat, lon, alt = c.real("lat"), c.real("lon"), c.real("alt")
+    key = (lat, lon, alt)
+    if key not in _STA:
+        _STA[key] = create_station(f"E2E_{len(_STA)}_{abs(hash(key)) % 10 ** 6}", (lat, lon, alt))
+    sta = _STA[key]
+    date = [Date(2018, 5, 4, 1, 2, 3), Date(2009, 12, 31, 23, 59, 50)][c.integer("date")]
+    # independent WGS-84 (a, 1/f typed here)
+    a_, f_ = 6378137.0, 1 / 298.257223563
+    e2 = f_ * (2 - f_)
+    ph, la = math.radians(lat), math.radians(lon)
+    N = a_ / math.sqrt(1 - e2 * math.sin(ph) ** 2)
+    rs = np.array([(N + alt) * math.cos(ph) * math.cos(la), (N + alt) * math.cos(ph) * math.sin(la), (N * (1 - e2) + alt) * math.sin(ph)])
+    east = np.array([-math.sin(la), math.cos(la), 0.0])
+    north = np.array([-math.sin(ph) * math.cos(la), -math.sin(ph) * math.sin(la), math.cos(ph)])
+    up = np.array([math.cos(ph) * math.cos(la), math.cos(ph) * math.sin(la), math.sin(ph)])
+    rng = np.random.default_rng(100 + c.integer("target"))
+    d = rng.normal(size=3)
+    d /= np.linalg.norm(d)
+    dist = [5.0e5, 2.0e6, 8.0e6, 4.2e7][c.integer("target") % 4]
+    rt = rs + dist * d if c.integer("target") % 3 else rs * (1 + dist / np.linalg.norm(rs))  # some straight overhead
+    vt = rng.normal(size=3) * 3.0e3
+    sv = StateVector(list(rt) + list(vt), date, "cartesian", "ITRF")
+    sph = sv.copy(frame=sta, form="spherical")
+    rho = rt - rs
+    want_r = float(np.linalg.norm(rho))
+    want_el = math.asin(max(-1.0, min(1.0, float(rho @ up) / want_r)))
+    want_az = math.atan2(float(rho @ east), float(rho @ north)) % (2 * math.pi)
+    # the station's own body constants (the library's WGS84 radius may differ from the one typed here by the documented 0.7 m)
+    from beyond.constants import Earth
+    tol_r = 1e-6 + abs(Earth.equatorial_radius - a_) * 1.01 + 1e-9 * want_r
+    c.ensure("range", abs(float(sph.r) - want_r) <= tol_r)
+    ang_tol = 1e-10 + 2 * tol_r / want_r
+    c.ensure("elevation", abs(float(sph.phi) - want_el) <= ang_tol)
+    horiz = math.cos(want_el)
+    if horiz > 1e-6:
+        dz = ((-float(sph.theta)) % (2 * math.pi) - want_az + math.pi) % (2 * math.pi) - math.pi
+        c.ensure("azimuth_is_minus_theta", abs(dz) <= ang_tol / horiz)
+    c.ensure("range_rate", abs(float(sph.r_dot) - float(rho @ vt) / want_r) <= 1e-6 + 2 * float(np.linalg.norm(vt)) * tol_r / want_r)
+    # the station itself
+    origin = StateVector([0.0] * 6, date, "cartesian", sta)
+    fixed = np.asarray(origin.copy(frame="ITRF"), dtype=float)
+    c.ensure("on_the_ellipsoid_normal_at_height", bool(np.linalg.norm(fixed[:3] - rs) <= abs(Earth.equatorial_radius - a_) * 1.01 + 1e-6))
+    c.ensure("at_rest_in_the_earth_fixed_frame", bool(np.linalg.norm(fixed[3:]) <= 1e-9))
+    pef = np.asarray(origin.copy(frame="PEF"), dtype=float)
+    tod = np.asarray(origin.copy(frame="TOD"), dtype=float)
+    omega = 7.292115146706979e-5
+    # in the true-of-date frame the station moves with omega x r (LOD of that day: < 3 ms/day, i.e. < 3.5e-8 relative)
+    spin = np.cross([0, 0, omega], tod[:3])
+    c.ensure("moves_with_the_earth_rotation", bool(np.linalg.norm(tod[3:] - spin) <= 1e-7 * np.linalg.norm(spin) + 1e-9) and abs(np.linalg.norm(tod[:3]) - np.linalg.norm(pef[:3])) <= 1e-6)
+    # measures
+    orb = sv
+    legs1, legs2 = (sta, "SAT"), (sta, "SAT", sta)
+    c.ensure("measure.range_per_leg", abs(Range(legs1, None, None).from_orbit(orb).value - float(sph.r)) <= 1e-6 and abs(Range(legs2, None, None).from_orbit(orb).value - 2 * float(sph.r)) <= 1e-6
+             and abs(Range((sta, "SAT", "OTHER"), None, None).from_orbit(orb).value - 2 * float(sph.r)) <= 1e-6
+             and abs(Range((sta, "SAT", "RELAY", "OTHER"), None, None).from_orbit(orb).value - 3 * float(sph.r)) <= 1e-6)
+    c.ensure("measure.angles", Azimut(legs1, None, None).from_orbit(orb).value == float(sph.theta) and Elevation(legs1, None, None).from_orbit(orb).value == float(sph.phi))
+    c.ensure("measure.range_rate", abs(Doppler(legs1, None, None).from_orbit(orb).value - float(sph.r_dot)) <= 1e-9)
